@@ -32,11 +32,11 @@ CLASSES = {
   ('K05-truth16-array', r'^expr/un/.*=!w[X1]', "truth value of a 16-bit array element tests the low byte only"),
   ('K06-inc16-array', r'^expr/inc(use)?/.*w2', "++/-- on an element of a 16-bit array updates the low byte only"),
   ('K07-deferred-postinc-index', r'^expr/incuse/Y=.*aY', "post-inc/dec of arr[Y] deferred until after Y itself was assigned: applied to the wrong element"),
-  ('K08-signed-compare', r'^cond/(if|set|ifnoelse|tern|while)/(sa|ha)~', "signed comparison lowered to CMP/SBC + BMI/BPL: wrong when the subtraction overflows, and > / <= variants wrong at equality"),
+  ('K08-signed-compare', r'^cond/(if|set|ifnoelse|tern|while)/(sa|ha)~|^expr/kcmp/(sa|ha)/', "signed comparison lowered to CMP/SBC + BMI/BPL: wrong when the subtraction overflows, and > / <= variants wrong at equality"),
   ('K09-unsigned-vs-0', r'^cond/(if|set|ifnoelse|tern|while)/(va|wa|X|Y)~(0|65535|255)/', "unsigned comparison against 0 or the type maximum folded with the sign flag / miscompiled (e.g. 'vc = va > 0' is always 0)"),
   ('K10-cmp16', r'^cond/(if|set|ifnoelse|tern|while)/(wa|wX|va|ha)~(wb|wa|va|hb|\d+|-\d+)/', "16-bit comparison (<=, > and mixed 8/16-bit operands) takes the wrong branch for some operands"),
   ('K11-postinc-in-shortcircuit', r'^cond/log[23]/.*i', "post-increment inside an operand of && / || is deferred past the short-circuit decision: executed when it must not be / missed when it must"),
-  ('K12-prec-eq-rel', r'^expr/prec/.*(==|!=)(vc|vb|wc)(<|>|<=|>=)|^expr/prec/.*(<|>|<=|>=)(vc|vb|wc)(==|!=)', "== / != share one precedence level with < > <= >= (C: relational binds tighter)"),
+  ('K12-prec-eq-rel', r'^expr/prec(init)?/.*(==|!=)(vc|vb|wc)(<|>|<=|>=)|^expr/prec(init)?/.*(<|>|<=|>=)(vc|vb|wc)(==|!=)', "== / != share one precedence level with < > <= >= (C: relational binds tighter)"),
   ('K13-logic16', r'^expr/prec/wa=.*(&&|\|\|)', "&& / || value assigned to a 16-bit destination: expression evaluated twice, 0/1 stored in both bytes, 16-bit operands tested on one byte"),
   ('K14-call16', r'^call/signed_ret', "8-bit function result assigned to a 16-bit destination: the call is emitted twice and the high byte is the result again"),
   ('K15-dowhile-postdec', r'^ctl/continue_do', "do { } while (v--): the decrement is deferred until after the loop, the loop never terminates for v != 0"),
